@@ -23,6 +23,7 @@ RULE = (
     'class created read-only rejects every mutator with NoModificationAllowedErr and stays equal. Non-trivial: the '
     'rejected argument has an acceptable prefix (late rejection) or targets a nested object; distinct by (mutator, '
     'argument, state).'
+    ' Rows also: @import rule text / href / object insertion whose fetched target is refused in raising mode, rule lists built from objects, a second prefix for a declared URI; property rows under restricted default profiles; a read-only URIValue.'
 )
 ASSUMPTIONS = [
     'only calls that raise xml.dom.DOMException are in scope; an accepted call or another exception type is classified separately (crash = reported)',
